@@ -106,6 +106,10 @@ pub struct WorldSat {
     pub pkh_keys: HashMap<[u8; 20], Vec<u8>>,
     /// answer time lock queries? (false: answers `false` to all, like a satisfier without locks)
     pub locks: bool,
+    /// when true, `lookup_raw_pkh_pk` / `lookup_raw_pkh_x_only_pk` answer `None`: the satisfier
+    /// knows the key behind a hash only together with a signature (a PSBT with partial
+    /// signatures but no key origins)
+    pub no_raw_pkh_pk: bool,
 }
 
 impl<Pk: MiniscriptKey + ToPublicKey> Satisfier<Pk> for WorldSat {
@@ -117,10 +121,16 @@ impl<Pk: MiniscriptKey + ToPublicKey> Satisfier<Pk> for WorldSat {
         self.tap_leaf.get(&(pk.to_x_only_pubkey().serialize(), lh.to_byte_array())).copied()
     }
     fn lookup_raw_pkh_pk(&self, h: &hash160::Hash) -> Option<bitcoin::PublicKey> {
+        if self.no_raw_pkh_pk {
+            return None;
+        }
         let b = self.pkh_keys.get(&h.to_byte_array())?;
         bitcoin::PublicKey::from_slice(b).ok()
     }
     fn lookup_raw_pkh_x_only_pk(&self, h: &hash160::Hash) -> Option<bitcoin::key::XOnlyPublicKey> {
+        if self.no_raw_pkh_pk {
+            return None;
+        }
         let b = self.pkh_keys.get(&h.to_byte_array())?;
         bitcoin::key::XOnlyPublicKey::from_slice(b).ok()
     }
